@@ -16,6 +16,7 @@ from zope.interface.interface import InterfaceClass
 from zope.interface.adapter import AdapterRegistry, VerifyingAdapterRegistry
 
 from .regmodel import registry_digest
+from .common import wmod, newworld
 
 FLAVOURS = {'adapter': AdapterRegistry, 'verifying': VerifyingAdapterRegistry}
 
@@ -42,11 +43,12 @@ class V:
 
 
 def mk(n, *b):
-    return InterfaceClass(n, b or (Interface,), {'__module__': 'w'})
+    return InterfaceClass(n, b or (Interface,), {'__module__': wmod()})
 
 
 def build(flavour):
     cls = FLAVOURS[flavour]
+    newworld()
     W = {}
     W['R0'] = mk('R0')
     W['R1'] = mk('R1', W['R0'])
